@@ -229,3 +229,79 @@ Qed.
 Example rev_example :
   rev_split [1;97;0;1;98;192;12] 3 = Ok (rev_wire [[98];[97]], 7) /\ rev_wire [[98];[97]] = [0;1;97;1;98].
 Proof. vm_compute. auto. Qed.
+
+(* ---- the exact-parse entry points (ParseMessageBytes) ---- *)
+Definition top_rel_p (x y : outcome bytes) : Prop :=
+  match x, y with
+  | Ok w, Ok rw => exists ls, w = wire_abs ls /\ rw = rev_wire ls
+  | Err _, Err _ => True
+  | _, _ => False
+  end.
+
+Theorem rev_parse_lockstep c start : top_rel_p (new_parse c start) (rev_parse c start).
+Proof.
+  pose proof (new_parse_total c start) as T.
+  unfold new_parse, rev_parse in *. destruct (get_from c start) as [bs|]; [|exact I].
+  pose proof (seg_lockstep (S (length bs)) bs [] [] eq_refl ltac:(cbn; lia)) as SL. unfold seg_rel in SL.
+  destruct (nb_segment (S (length bs)) bs []) as [[[p1 r1] b1]| | |];
+    destruct (rb_segment (S (length bs)) bs []) as [[[p2 r2] b2]| | |]; try exact SL; try contradiction.
+  destruct SL as (<- & <- & ls & Eb1 & Eb2 & Hlt). cbn [bind] in *.
+  destruct r1 as [|x r1]; [|exact I].
+  change nb_parse_hdr with 12 in *. change nb_parse_rule_ge with true in *.
+  change rb_parse_hdr with 12. change rb_parse_rule_ge with true.
+  assert (Hl' : len b1 = len b2).
+  { rewrite Eb1, Eb2. unfold len. rewrite !app_length, rwire_length. cbn [length]. lia. }
+  pose proof (follow_lockstep c (follow_fuel start) p1 start b1 b2 Hl' Hlt) as FL. unfold fol_rel in FL.
+  destruct (nb_follow (follow_fuel start) 12 true c p1 start b1) as [w| | |];
+    destruct (rb_follow (follow_fuel start) 12 true c p1 start b2) as [rw| | |]; cbn [top_rel_p] in *; try exact FL; try contradiction.
+  destruct FL as (ls2 & t & Ew & Erw & Ht1 & Ht2).
+  destruct p1 as [p1|].
+  - specialize (Ht1 ltac:(discriminate)). subst t. cbn [term_of app] in Eb1, Eb2. rewrite app_nil_r in Eb1, Eb2.
+    exists (ls ++ ls2). rewrite Ew, Erw, Eb1, Eb2. unfold wire_abs, rev_wire. rewrite wire_rel_app, rwire_app, <- !app_assoc.
+    split; reflexivity.
+  - destruct (Ht2 eq_refl) as [-> ->]. cbn [term_of app] in Eb1, Eb2.
+    exists ls. rewrite Ew, Erw, Eb1, Eb2. unfold wire_abs, rev_wire. cbn [wire_rel map concat rwire rev app]. rewrite ?app_nil_r. split; reflexivity.
+Qed.
+
+Theorem rev_parse_total c start : no_panic (rev_parse c start).
+Proof.
+  pose proof (rev_parse_lockstep c start) as L. unfold top_rel_p in L.
+  destruct (new_parse c start); destruct (rev_parse c start); try contradiction; exact I.
+Qed.
+
+(* all four readers decode the same paths: the exact parse of either name type
+   succeeds iff the split reader of that type succeeds and ends at the end of
+   the range, with the same labels *)
+Theorem four_readers c start ls :
+  (new_parse c start = Ok (wire_abs ls) <-> new_split c start = Ok (wire_abs ls, len c)) /\
+  (rev_parse c start = Ok (rev_wire ls) <-> new_split c start = Ok (wire_abs ls, len c)) /\
+  (rev_split c start = Ok (rev_wire ls, len c) <-> new_split c start = Ok (wire_abs ls, len c)).
+Proof.
+  split; [apply new_parse_is_split|]. split.
+  - rewrite <- new_parse_is_split. pose proof (rev_parse_lockstep c start) as L. unfold top_rel_p in L. split; intros H.
+    + rewrite H in L. destruct (new_parse c start) as [w| | |]; try contradiction.
+      destruct L as (ls' & -> & E). unfold rev_wire in E. injection E as E.
+      assert (ls = ls'); [|subst; reflexivity].
+      apply wire_rel_inj. clear - E. unfold rwire in E.
+      assert (Q : forall a b : name, concat (map wire_label (rev a)) = concat (map wire_label (rev b)) -> rev a = rev b).
+      { intros a b Hq. apply wire_rel_inj. exact Hq. }
+      apply Q in E. apply (f_equal (@rev label)) in E. rewrite !rev_involutive in E. rewrite E. reflexivity.
+    + rewrite H in L. destruct (rev_parse c start) as [rw| | |]; try contradiction.
+      destruct L as (ls' & E & ->). apply wire_abs_inj in E. subst. reflexivity.
+  - pose proof (rev_split_lockstep c start) as L. unfold top_rel in L. split; intros H.
+    + rewrite H in L. destruct (new_split c start) as [[w e]| | |]; try contradiction.
+      destruct L as (-> & ls' & -> & E). unfold rev_wire in E. injection E as E.
+      assert (ls = ls'); [|subst; reflexivity].
+      assert (Q : forall a b : name, concat (map wire_label (rev a)) = concat (map wire_label (rev b)) -> rev a = rev b).
+      { intros a b Hq. apply wire_rel_inj. exact Hq. }
+      unfold rwire in E. apply Q in E. apply (f_equal (@rev label)) in E. rewrite !rev_involutive in E. exact E.
+    + rewrite H in L. destruct (rev_split c start) as [[rw e']| | |]; try contradiction.
+      destruct L as (<- & ls' & E & ->). apply wire_abs_inj in E. subst. reflexivity.
+Qed.
+
+(* termination and rejection on the shapes of seeded change C19-r3-2 *)
+Example chain_examples :
+  rev_parse [192;12;1;120;192;12] 2 = Err E_PARSE /\ new_parse [192;12;1;120;192;12] 2 = Err E_PARSE /\
+  rev_parse [1;97;192;18;0;0;3;111;114;103;0;3;119;119;119;192;12] 11 = Err E_PARSE /\
+  rev_parse [3;111;114;103;0;1;97;192;12;3;119;119;119;192;17] 9 = Ok (rev_wire [[119;119;119];[97];[111;114;103]]).
+Proof. vm_compute. repeat split; reflexivity. Qed.
